@@ -21,7 +21,7 @@ type C01Case struct {
 
 const c01Rule = "generator: 1-6 valid origin patterns derived from a shared pool of base hosts over a tiny label alphabet " +
 	"(hosts share byte suffixes that are not label boundaries; exact and *. variants, trailing dots, IPv4/IPv6 literals, several schemes/ports), " +
-	"or long hosts up to 253 bytes with 64-byte schemes; a twin list = drawn permutation with drawn duplications; probes = complete near-miss set " +
+	"or long hosts up to 253 bytes with 64-byte schemes; 15% of lists additionally contain the single asterisk at a drawn position; a twin list = drawn permutation with drawn duplications; probes = complete near-miss set " +
 	"of every pattern (left extension without dot, truncation on either side, deeper/shallower/sibling subdomain, scheme prefix/suffix/other, " +
 	"port absent/default/65535/digit-appended/truncated) plus drawn extras. evaluations = probe verdicts compared with the denotation model " +
 	"(GET and preflight, list and twin). non-trivial case = list with >=2 distinct patterns of which two share a non-empty host byte suffix; " +
@@ -48,6 +48,14 @@ func c01Gen(t *rapid.T) C01Case {
 		twin = append(twin, perm[0])
 	}
 	c.Twin = patStrings(twin)
+	// the single asterisk, at any position and multiplicity, makes every origin allowed
+	if chance(t, "star", 15) {
+		c.Pats = insertAt(t, c.Pats, "*")
+		c.Twin = insertAt(t, c.Twin, "*")
+		if chance(t, "star2", 30) {
+			c.Twin = insertAt(t, c.Twin, "*")
+		}
+	}
 	// a few unrelated well-formed probes
 	n := rapid.IntRange(0, 4).Draw(t, "nextra")
 	for i := 0; i < n; i++ {
@@ -100,11 +108,17 @@ func nonBoundarySuffix(ps []Pat) bool {
 }
 
 func originVerdicts(wrap func(http.Handler) http.Handler, o string) (getOK, pfOK bool, bad string) {
+	return originVerdictsStar(wrap, o, false)
+}
+
+// originVerdictsStar: when the configuration lists "*" (star), the literal
+// value * in ACAO is how "allowed" is expressed.
+func originVerdictsStar(wrap func(http.Handler) http.Handler, o string, star bool) (getOK, pfOK bool, bad string) {
 	r := Do(wrap, Actual("GET", o), nil)
 	acao := r.Hdr[hACAO]
 	switch {
 	case len(acao) == 0:
-	case len(acao) == 1 && acao[0] == o:
+	case len(acao) == 1 && (acao[0] == o || star && acao[0] == "*"):
 		getOK = true
 	default:
 		bad = fmt.Sprintf("GET Origin %q: malformed ACAO %q", o, acao)
@@ -118,7 +132,7 @@ func originVerdicts(wrap func(http.Handler) http.Handler, o string) (getOK, pfOK
 	acao = p.Hdr[hACAO]
 	switch {
 	case p.Status == 403 && len(acao) == 0:
-	case p.Status >= 200 && p.Status <= 299 && len(acao) == 1 && acao[0] == o:
+	case p.Status >= 200 && p.Status <= 299 && len(acao) == 1 && (acao[0] == o || star && acao[0] == "*"):
 		pfOK = true
 	default:
 		bad = fmt.Sprintf("preflight Origin %q: status %d ACAO %q", o, p.Status, acao)
@@ -157,6 +171,9 @@ func c01Check(c C01Case, rec *Recorder) *Disc {
 		rec.NonTrivial(strings.Join(ss(c.Pats), " "), strings.Join(ss(c.Twin), " "))
 		rec.Class("nontrivial-list")
 	}
+	if model.All {
+		rec.Class("list-with-asterisk")
+	}
 	if nonBoundarySuffix(model.Pats) {
 		rec.Class("list-with-non-label-boundary-shared-suffix")
 	}
@@ -166,9 +183,9 @@ func c01Check(c C01Case, rec *Recorder) *Disc {
 			rec.Class("probe-not-judged-too-long")
 			continue
 		}
-		exp := model.DenotedBy(o)
+		exp := model.Allowed(o)
 		for i, m := range []*cors.Middleware{m1, m2} {
-			g, p, bad := originVerdicts(m.Wrap, o)
+			g, p, bad := originVerdictsStar(m.Wrap, o, model.All)
 			if bad != "" {
 				return discf("patterns %q (middleware %d): %s", pick2(i, c.Pats, c.Twin), i, bad)
 			}
